@@ -90,6 +90,19 @@ CHECKS = {
         "note": "Honest resuming client, default configuration, one upload per name at a time. Trusted: O_APPEND writes, io.CopyN, rename. No axioms.",
         "technique": "Coq proof (invariant over all cut sequences; staged-parse lemma over cut streams) + differential correspondence over cut histories",
     },
+    "C12": {
+        "text": "Theorems (Props/C12.v) over the chat model: in every state, a public line from a sender holding send-chat is queued once each for "
+                "exactly the connected users whose account may read chat (and for nobody when the sender lacks send-chat: one error reply); "
+                "private lines, subject changes, join/leave/decline notices are queued once each for exactly the members; after leaving, a user "
+                "is no member (and the leave notice goes to the remaining members); declining changes no membership; the text is "
+                "'\\r%13.13s:  msg' / '\\r*** name msg' on Go's rune segmentation, cut to 8192 bytes. Correspondence: wire-mode histories with "
+                "3+ clients of differing chat privileges (connect, public/private lines incl. emotes, 8 KB+ messages, Frogblast's zero chat ID, "
+                "invite, join, leave, decline, subject, disconnect) through the real connection loop; the model predicts every client's inbox "
+                "per step; an independent oracle tracks membership per CONNECTION and checks that exactly the entitled clients received each kind.",
+        "note": "Queue-level theorem + delivery by ID: KNOWN FINDING stale-member-after-id-reuse (membership not purged on disconnect; manifests after "
+                "the 16-bit ID counter wraps), demonstrated by a dedicated history on every run. In-order delivery assumed. No axioms.",
+        "technique": "Coq proof (audience = members/readers for all states) + differential correspondence over wire-mode histories with per-connection membership oracle",
+    },
     "C13": {
         "text": "Theorems (Props/C13.v): (new_id_is_free) the repaired allocation loop never returns an ID in use while any of the 65,536 IDs is free, for "
                 "any counter value (wrap included) - by an induction over the loop plus a covering lemma for 65,536 successive counter values; "
